@@ -9,41 +9,280 @@ import re
 from extract_core import extractor, read, strip_c_comments
 
 
-def find_function(src, name, with_params=False):
-    """return the body text (between the outer braces) of function `name`"""
+def clean_source(src):
+    """comments out, string/character literals blanked (they carry no structure), continuation lines joined"""
     src = strip_c_comments(src)
-    # string and character literals carry no structure: blank them
     src = re.sub(r'"(?:[^"\\\n]|\\.)*"', '""', src)
     src = re.sub(r"'(?:[^'\\\n]|\\.)'", "'c'", src)
-    # definition: name at line start (BSD style: return type on the previous line)
-    for m in re.finditer(r"^" + re.escape(name) + r"\s*\(", src, re.M):
-        i = m.end() - 1
+    return src.replace("\\\n", " ")
+
+
+# ---------------------------------------------------------------- preprocessor configurations
+# The clean-up code of one function can differ between builds (`#ifdef HWACCEL ... #else ... #endif`).  The translator
+# therefore emits one statement list per *configuration*: every assignment defined/undefined of the macros that occur in
+# conditionals touching the function (macros `#define`d by the file itself, like HWACCEL, follow from the others by
+# running the file's own directives in order).  An `#if` expression that is not a formula over `defined()` is an opaque
+# two-valued unknown.  Over-approximation only: a configuration nobody builds is still judged.
+
+# what harness/h_wipe.c is compiled with (vlib.ALL_CPU + build_harness): names the configuration the run-time side observes
+HARNESS_DEFINED = {"CPUSUPPORT_X86_CPUID", "CPUSUPPORT_X86_CPUID_COUNT", "CPUSUPPORT_X86_AESNI", "CPUSUPPORT_X86_SHANI",
+                   "CPUSUPPORT_X86_SSE2", "CPUSUPPORT_X86_SSE42", "CPUSUPPORT_X86_SSE42_64", "CPUSUPPORT_X86_SSSE3",
+                   "CPUSUPPORT_HWCAP_GETAUXVAL", "APISUPPORT_LIBCRYPTO_LOW_LEVEL_AES", "LIBCPERCIVA_VERIF",
+                   "__GNUC__", "__x86_64__"}
+MAX_PRIMARIES = 8
+
+
+def parse_cond(expr):
+    """`#if` expression -> AST: ('def', X) | ('not', a) | ('and', a, b) | ('or', a, b) | ('const', bool) | ('opaque', text)"""
+    text = re.sub(r"\s+", " ", expr.strip())
+    toks = re.findall(r"[A-Za-z_]\w*|\d+[uUlL]*|&&|\|\||!(?!=)|\(|\)|\S", text)
+    pos = [0]
+
+    class Opaque(Exception):
+        pass
+
+    def peek():
+        return toks[pos[0]] if pos[0] < len(toks) else None
+
+    def eat(t=None):
+        tok = peek()
+        if tok is None or (t is not None and tok != t):
+            raise Opaque()
+        pos[0] += 1
+        return tok
+
+    def unary():
+        tok = eat()
+        if tok == "!":
+            return ("not", unary())
+        if tok == "(":
+            a = disj()
+            eat(")")
+            return a
+        if tok == "defined":
+            if peek() == "(":
+                eat("(")
+                x = eat()
+                eat(")")
+            else:
+                x = eat()
+            if not re.match(r"[A-Za-z_]\w*$", x):
+                raise Opaque()
+            return ("def", x)
+        if re.match(r"\d+[uUlL]*$", tok):
+            return ("const", int(tok.rstrip("uUlL")) != 0)
+        if re.match(r"[A-Za-z_]\w*$", tok) and peek() in (None, ")", "&&", "||"):
+            return ("def", tok)          # `#if X`: X defined (and not 0) — approximated by definedness
+        raise Opaque()
+
+    def conj():
+        a = unary()
+        while peek() == "&&":
+            eat()
+            a = ("and", a, unary())
+        return a
+
+    def disj():
+        a = conj()
+        while peek() == "||":
+            eat()
+            a = ("or", a, conj())
+        return a
+
+    try:
+        a = disj()
+        if peek() is not None:
+            raise Opaque()
+        return a
+    except Opaque:
+        return ("opaque", "expr:" + text)
+
+
+def cond_macros(a):
+    if a[0] in ("def", "opaque"):
+        return {a[1]}
+    if a[0] == "const":
+        return set()
+    return set().union(*[cond_macros(x) for x in a[1:]])
+
+
+def cond_eval(a, defined):
+    if a[0] in ("def", "opaque"):
+        return a[1] in defined
+    if a[0] == "const":
+        return a[1]
+    if a[0] == "not":
+        return not cond_eval(a[1], defined)
+    if a[0] == "and":
+        return cond_eval(a[1], defined) and cond_eval(a[2], defined)
+    return cond_eval(a[1], defined) or cond_eval(a[2], defined)
+
+
+DIRECTIVE = re.compile(r"^[ \t]*#[ \t]*(\w+)[ \t]*(.*)$")
+
+
+def directive_cond(kind, rest):
+    if kind == "ifdef":
+        return ("def", rest.split()[0]) if rest.split() else ("const", False)
+    if kind == "ifndef":
+        return ("not", ("def", rest.split()[0])) if rest.split() else ("const", True)
+    return parse_cond(rest)
+
+
+def preprocess(text, assignment):
+    """run the conditional directives of `text` with the macros of `assignment` defined -> (text with directive lines and
+    inactive regions blanked, set of macros defined at the end)"""
+    defined = set(assignment)
+    out = []
+    stack = []           # [parent_active, some_branch_taken, active]
+    for line in text.split("\n"):
+        m = DIRECTIVE.match(line)
+        active = all(f[2] for f in stack)
+        if not m:
+            out.append(line if active else "")
+            continue
+        kind, rest = m.group(1), m.group(2)
+        if kind in ("if", "ifdef", "ifndef"):
+            v = active and cond_eval(directive_cond(kind, rest), defined)
+            stack.append([active, v, v])
+        elif kind == "elif" and stack:
+            f = stack[-1]
+            v = f[0] and not f[1] and cond_eval(parse_cond(rest), defined)
+            f[2] = v
+            f[1] = f[1] or v
+        elif kind == "else" and stack:
+            f = stack[-1]
+            f[2] = f[0] and not f[1]
+            f[1] = True
+        elif kind == "endif" and stack:
+            stack.pop()
+        elif kind == "define" and active:
+            mm = re.match(r"([A-Za-z_]\w*)", rest)
+            if mm:
+                defined.add(mm.group(1))
+        elif kind == "undef" and active:
+            mm = re.match(r"([A-Za-z_]\w*)", rest)
+            if mm:
+                defined.discard(mm.group(1))
+        out.append("")
+    return "\n".join(out), defined
+
+
+def conditional_map(text):
+    """-> (conditionals: id -> {'macros', 'start', 'end'}, defines: [(macro, enclosing ids)])   (line numbers, 0-based)"""
+    conds, defines, stack = {}, [], []
+    lines = text.split("\n")
+    for ln, line in enumerate(lines):
+        m = DIRECTIVE.match(line)
+        if not m:
+            continue
+        kind, rest = m.group(1), m.group(2)
+        if kind in ("if", "ifdef", "ifndef"):
+            cid = len(conds)
+            conds[cid] = {"macros": cond_macros(directive_cond(kind, rest)), "start": ln, "end": len(lines)}
+            stack.append(cid)
+        elif kind == "elif" and stack:
+            conds[stack[-1]]["macros"] |= cond_macros(parse_cond(rest))
+        elif kind == "endif" and stack:
+            conds[stack.pop()]["end"] = ln
+        elif kind == "define":
+            mm = re.match(r"([A-Za-z_]\w*)", rest)
+            if mm:
+                defines.append((mm.group(1), tuple(stack)))
+    return conds, defines
+
+
+def definition_spans(text, name):
+    """(first line, last line) of every definition of `name` in un-preprocessed text (both branches of an #if present)"""
+    spans = []
+    for m in re.finditer(r"^" + re.escape(name) + r"\s*\(", text, re.M):
+        try:
+            _, _, e = _match_definition(text, m)
+        except KeyError:
+            continue
+        spans.append((text.count("\n", 0, m.start()), text.count("\n", 0, e)))
+    return spans
+
+
+def configurations(text, name):
+    """-> (relevant macros, list of assignments (sets of primaries), harness first), for function `name` of cleaned file text"""
+    conds, defines = conditional_map(text)
+    spans = definition_spans(text, name)
+    rel = set()
+    for c in conds.values():
+        if any(c["start"] <= b and a <= c["end"] for a, b in spans):
+            rel |= c["macros"]
+    changed = True
+    while changed:
+        changed = False
+        for mac, stk in defines:
+            if mac in rel:
+                for cid in stk:
+                    if not conds[cid]["macros"] <= rel:
+                        rel |= conds[cid]["macros"]
+                        changed = True
+    own = {mac for mac, _ in defines}
+    prim = sorted(rel - own)
+    msgs = []
+    if len(prim) > MAX_PRIMARIES:
+        msgs.append("%s: %d macros in conditionals; only the first %d are varied" % (name, len(prim), MAX_PRIMARIES))
+        prim = prim[:MAX_PRIMARIES]
+    harness = frozenset(p for p in prim if p in HARNESS_DEFINED)
+    allsets = []
+    for bits in range(1 << len(prim)):
+        allsets.append(frozenset(p for i, p in enumerate(prim) if bits >> i & 1))
+    allsets.sort(key=lambda s: (s != harness, len(s), sorted(s)))
+    return rel, allsets, msgs
+
+
+def _match_definition(src, m):
+    """m: match of `name(` at a line start -> (params text, body start, body end) when a `{` follows the parameter list"""
+    i = m.end() - 1
+    depth = 0
+    j = i
+    while j < len(src):
+        if src[j] == "(":
+            depth += 1
+        elif src[j] == ")":
+            depth -= 1
+            if depth == 0:
+                break
+        j += 1
+    k = j + 1
+    while k < len(src) and src[k] in " \t\r\n":
+        k += 1
+    if k < len(src) and src[k] == "{":
         depth = 0
-        j = i
-        while j < len(src):
-            if src[j] == "(":
+        e = k
+        while e < len(src):
+            if src[e] == "{":
                 depth += 1
-            elif src[j] == ")":
+            elif src[e] == "}":
                 depth -= 1
                 if depth == 0:
-                    break
-            j += 1
-        k = j + 1
-        while k < len(src) and src[k] in " \t\r\n":
-            k += 1
-        if k < len(src) and src[k] == "{":
-            depth = 0
-            e = k
-            while e < len(src):
-                if src[e] == "{":
-                    depth += 1
-                elif src[e] == "}":
-                    depth -= 1
-                    if depth == 0:
-                        if with_params:
-                            return src[i + 1:j], src[k + 1:e]
-                        return src[k + 1:e]
-                e += 1
+                    return src[i + 1:j], k, e
+            e += 1
+    raise KeyError("not a definition")
+
+
+def find_function(src, name, with_params=False, cleaned=False, want_static=False):
+    """return the body text (between the outer braces) of function `name`"""
+    if not cleaned:
+        src = clean_source(src)
+    # definition: name at line start (BSD style: return type on the previous line)
+    for m in re.finditer(r"^" + re.escape(name) + r"\s*\(", src, re.M):
+        try:
+            params, k, e = _match_definition(src, m)
+        except KeyError:
+            continue
+        if want_static:
+            # the declaration specifiers sit between the previous `;`/`}` and the name
+            b = max(src.rfind(";", 0, m.start()), src.rfind("}", 0, m.start()))
+            if not re.search(r"\bstatic\b", src[b + 1:m.start()]):
+                continue
+        if with_params:
+            return params, src[k + 1:e]
+        return src[k + 1:e]
     raise KeyError("function %s not found" % name)
 
 
@@ -133,8 +372,39 @@ def calls_in(expr):
     return out
 
 
-def statements(body):
-    """flat statement list: ('call', dst, fn, args, faillabel|None) | ('label', l) | ('goto', l) | ('ret',)"""
+# calls that only report (their arguments never include an object of interest being released)
+REPORT_FNS = {"warn0", "warnp", "warn", "warnx", "ERR_error_string", "ERR_get_error"}
+# a static helper of the same file is inlined when it (transitively) releases, wipes or may reallocate something
+SENSITIVE_FNS = {"free", "insecure_memzero", "realloc", "reallocarray", "getline", "getdelim",
+                 "BN_free", "BN_clear_free", "BN_CTX_free"}
+
+
+class Fresh:
+    """per-function counter for synthetic labels and the out-of-line blocks collected while translating"""
+    def __init__(self):
+        self.n = 0
+        self.deferred = []
+
+    def label(self, kind):
+        self.n += 1
+        return "<%s%d>" % (kind, self.n)
+
+
+def is_jump(sts):
+    return bool(sts) and sts[-1][0] in ("goto", "ret")
+
+
+def statements(body, fr=None):
+    """flat statement list: ('call', dst, fn, args, faillabel|None) | ('cond', c, label) | ('label', l) | ('goto', l) | ('ret',)
+
+    `if (c) B` where B cannot fall out of its block (ends in goto/return) is a *jumping block*:
+      - B only reports (warn0, ERR_*):          calls of c with failure label L, or `.cond c L`      (L = target, `<return>`)
+      - B does more, c has no calls:            `.cond "!(c)" <elseN>`, B, `.label <elseN>`           (B kept in line)
+      - B does more, c has calls:               calls of c with failure label <blkN>; `.label <blkN>`, B appended after the
+                                                function's last statement (out of line)
+    any other `if`/`else`/loop body is ordinary code and is flattened into the main line (over-approximation: both arms
+    are walked as if executed)."""
+    fr = fr if fr is not None else Fresh()
     out = []
     i, n = 0, len(body)
 
@@ -156,10 +426,12 @@ def statements(body):
             j += 1
         return n - 1
 
-    def block_or_stmt(k):
-        """-> (text, end) of the statement starting at k"""
+    def stmt_end(k):
+        """index just past the statement that starts at k"""
         k = skip_ws(k)
-        if k < n and body[k] == "{":
+        if k >= n:
+            return n
+        if body[k] == "{":
             depth, j = 0, k
             while j < n:
                 if body[j] == "{":
@@ -167,20 +439,65 @@ def statements(body):
                 elif body[j] == "}":
                     depth -= 1
                     if depth == 0:
-                        return body[k + 1:j], j + 1
+                        return j + 1
                 j += 1
-            return body[k + 1:], n
-        j = k
+            return n
+        m = re.match(r"(if|while|for|switch)\s*\(", body[k:])
+        if m:
+            e = stmt_end(paren(k + m.end() - 1) + 1)
+            if m.group(1) == "if":
+                k2 = skip_ws(e)
+                if re.match(r"else\b", body[k2:]):
+                    return stmt_end(k2 + 4)
+            return e
+        if re.match(r"do\b", body[k:]):
+            e = skip_ws(stmt_end(k + 2))
+            m = re.match(r"while\s*\(", body[e:])
+            if m:
+                e = paren(e + m.end() - 1) + 1
+            j = body.find(";", e)
+            return n if j < 0 else j + 1
         depth = 0
+        j = k
         while j < n:
-            if body[j] == "(":
+            if body[j] in "({":
                 depth += 1
-            elif body[j] == ")":
+            elif body[j] in ")}":
                 depth -= 1
             elif body[j] == ";" and depth == 0:
-                return body[k:j + 1], j + 1
+                return j + 1
             j += 1
-        return body[k:], n
+        return n
+
+    def sub(k):
+        """-> (translated statements of the sub-statement at k, end)"""
+        k = skip_ws(k)
+        e = stmt_end(k)
+        text = body[k:e]
+        if text.startswith("{"):
+            text = text[1:text.rfind("}")] if "}" in text else text[1:]
+        return statements(text, fr), e
+
+    def jumping(cond, ccalls, inner):
+        """emit `if (cond) inner` where inner ends in goto/return"""
+        target = inner[-1][1] if inner[-1][0] == "goto" else "<return>"
+        more = [st for st in inner[:-1] if not (st[0] == "call" and st[2] in REPORT_FNS)]
+        if not more:
+            if ccalls:
+                for (dst, fn, args, _) in ccalls:
+                    out.append(("call", dst, fn, args, target))
+            else:
+                out.append(("cond", cond, target))
+        elif not ccalls:
+            l = fr.label("else")
+            out.append(("cond", "!(%s)" % cond, l))
+            out.extend(inner)
+            out.append(("label", l))
+        else:
+            l = fr.label("blk")
+            for (dst, fn, args, _) in ccalls:
+                out.append(("call", dst, fn, args, l))
+            fr.deferred.append([("label", l)] + inner)
 
     while True:
         i = skip_ws(i)
@@ -191,7 +508,7 @@ def statements(body):
             out.append(("label", m.group(1)))
             i += m.end()
             continue
-        if body.startswith("#", i):            # preprocessor line: keep conditional structure out
+        if body.startswith("#", i):            # a directive that survived preprocessing (none should)
             j = body.find("\n", i)
             i = n if j < 0 else j + 1
             continue
@@ -199,56 +516,137 @@ def statements(body):
         if m:
             p0 = i + m.end() - 1
             p1 = paren(p0)
-            cond = body[p0 + 1:p1]
-            inner, end = block_or_stmt(p1 + 1)
-            g = re.search(r"\bgoto\s+(\w+)\s*;", inner)
-            r = re.search(r"\breturn\b", inner)
+            cond = re.sub(r"\s+", " ", body[p0 + 1:p1].strip())
+            inner, end = sub(p1 + 1)
             cs = calls_in(cond)
-            fail = g.group(1) if g else ("<return>" if r else None)
-            if cs:
+            if is_jump(inner):
+                jumping(cond, cs, inner)
+            else:
+                # ordinary conditional code (e.g. the memzero inside `if (*key_secret)`)
                 for (dst, fn, args, _) in cs:
-                    out.append(("call", dst, fn, args, fail))
-            elif fail:
-                out.append(("cond", cond.strip(), fail))
-            # a body without goto/return is ordinary code (e.g. the memzero inside `if (*key_secret)`);
-            # a body with one is an error-reporting block whose own calls (warn0, ERR_*) are not kept
-            if fail is None:
-                for st in statements(inner):
-                    out.append(st)
-            # skip an else branch textually (treated as straight-line continuation)
+                    out.append(("call", dst, fn, args, None))
+                out.extend(inner)
             k = skip_ws(end)
-            if body.startswith("else", k):
-                inner2, end2 = block_or_stmt(k + 4)
-                for st in statements(inner2):
-                    out.append(st)
-                end = end2
+            if re.match(r"else\b", body[k:]):
+                inner2, end = sub(k + 4)
+                if is_jump(inner2):
+                    jumping("!(%s)" % cond, [], inner2)
+                else:
+                    out.extend(inner2)
             i = end
             continue
-        m = re.match(r"(while|for)\s*\(", body[i:])
+        m = re.match(r"(while|for|switch)\s*\(", body[i:])
         if m:
             p0 = i + m.end() - 1
             p1 = paren(p0)
             for (dst, fn, args, _) in calls_in(body[p0 + 1:p1]):
                 out.append(("call", dst, fn, args, None))
-            inner, end = block_or_stmt(p1 + 1)
-            for st in statements(inner):
-                out.append(st)
+            inner, end = sub(p1 + 1)
+            # a loop body that ends in a jump is still conditional on the loop being entered
+            if is_jump(inner):
+                jumping("<loop>", [], inner)
+            else:
+                out.extend(inner)
             i = end
             continue
-        text, end = block_or_stmt(i)
-        t = text.strip()
+        if re.match(r"do\b", body[i:]):
+            inner, e = sub(i + 2)
+            out.extend(inner)
+            end = stmt_end(i)
+            for (dst, fn, args, _) in calls_in(body[e:end]):
+                out.append(("call", dst, fn, args, None))
+            i = end
+            continue
+        if body[i] == "{":
+            inner, end = sub(i)
+            out.extend(inner)
+            i = end
+            continue
+        end = stmt_end(i)
+        t = body[i:end].strip()
         if re.match(r"goto\s+\w+", t):
             out.append(("goto", re.match(r"goto\s+(\w+)", t).group(1)))
         elif re.match(r"return\b", t):
+            for (dst, fn, args, _) in calls_in(t[6:]):
+                out.append(("call", dst, fn, args, None))
             out.append(("ret",))
-        elif t.startswith("{") or body[i] == "{":
-            for st in statements(text):
-                out.append(st)
         else:
             for (dst, fn, args, _) in calls_in(t):
                 out.append(("call", dst, fn, args, None))
         i = end
     return out
+
+
+def translate_body(body):
+    """statement list of a whole function body: main line, then the out-of-line blocks"""
+    fr = Fresh()
+    sts = statements(body, fr)
+    if fr.deferred:
+        if not is_jump(sts):
+            sts.append(("ret",))
+        for blk in fr.deferred:
+            sts.extend(blk)
+    return sts
+
+
+def param_names(params):
+    names = []
+    for d in split_args(params):
+        d = re.sub(r"\[[^\]]*\]", "", d).strip()
+        m = re.search(r"([A-Za-z_]\w*)$", d)
+        names.append(m.group(1) if m and d != "void" else None)
+    return names
+
+
+def subst(text, mapping):
+    if not mapping:
+        return text
+    return re.sub(r"(?<![\w>.])(%s)\b" % "|".join(re.escape(k) for k in mapping), lambda m: mapping[m.group(1)], text)
+
+
+def translate_function(text, cname, depth=0, want_static=False):
+    """cleaned + preprocessed file text -> statement list of `cname`, sizeof expressions normalised, static helpers that
+    release / wipe / may reallocate inlined (their `return` becomes a jump to the end of the inlined piece)"""
+    params, body = find_function(text, cname, with_params=True, cleaned=True, want_static=want_static)
+    types = declared_types(params, body)
+    sts = [(st[0], st[1], st[2], [normalise_sizeof(a, types) for a in st[3]], st[4]) if st[0] == "call" else st
+           for st in translate_body(body)]
+    if depth >= 3:
+        return sts, params
+    out, k = [], 0
+    for st in sts:
+        helper = None
+        if st[0] == "call" and st[1] == "" and st[4] is None and st[2] != cname and st[2] not in KEYWORDS:
+            try:
+                helper = translate_function(text, st[2], depth + 1, want_static=True)
+            except KeyError:
+                helper = None
+        if helper is None or not any(h[0] == "call" and h[2] in SENSITIVE_FNS for h in helper[0]):
+            out.append(st)
+            continue
+        hsts, hparams = helper
+        k += 1
+        tag = "%s#%d" % (st[2], k)
+        endl = "<end:%s>" % tag
+        names = param_names(hparams)
+        mapping = {nm: a for nm, a in zip(names, st[3]) if nm}
+        ren = lambda l: l if l == "<return>" else "%s@%s" % (l, tag)
+        if hsts and hsts[-1] == ("ret",):
+            hsts = hsts[:-1]
+        for h in hsts:
+            if h[0] == "call":
+                fail = None if h[4] is None else (endl if h[4] == "<return>" else ren(h[4]))
+                out.append(("call", subst(h[1], mapping), h[2], [subst(a, mapping) for a in h[3]], fail))
+            elif h[0] == "cond":
+                out.append(("cond", subst(h[1], mapping), endl if h[2] == "<return>" else ren(h[2])))
+            elif h[0] == "label":
+                out.append(("label", ren(h[1])))
+            elif h[0] == "goto":
+                out.append(("goto", ren(h[1])))
+            else:
+                out.append(("goto", endl))
+        out.append(("label", endl))
+    return out, params
 
 
 def lean_str(s):
@@ -270,7 +668,7 @@ def lean_stmt(st):
 
 
 FUNCS = [
-    # (lean name, file, C function)
+    # (lean name, file, C function[, "optional": may be absent from the harness configuration])
     ("blindedModexp", "crypto/crypto_dh.c", "blinded_modexp"),
     ("dhGeneratePub", "crypto/crypto_dh.c", "crypto_dh_generate_pub"),
     ("dhCompute", "crypto/crypto_dh.c", "crypto_dh_compute"),
@@ -284,13 +682,37 @@ FUNCS = [
     ("hmacMd5Final", "alg/md5.c", "HMAC_MD5_Final"),
     ("aesKeyFree", "crypto/crypto_aes.c", "crypto_aes_key_free"),
     ("aesKeyFreeAesni", "crypto/crypto_aes_aesni.c", "crypto_aes_key_free_aesni"),
+    ("aesKeyFreeArm", "crypto/crypto_aes_arm.c", "crypto_aes_key_free_arm", "optional"),
     ("aesKeyExpand", "crypto/crypto_aes.c", "crypto_aes_key_expand"),
     ("aesKeyExpandAesni", "crypto/crypto_aes_aesni.c", "crypto_aes_key_expand_aesni"),
+    ("aesKeyExpandArm", "crypto/crypto_aes_arm.c", "crypto_aes_key_expand_arm", "optional"),
     ("aesctrFree", "crypto/crypto_aesctr.c", "crypto_aesctr_free"),
     ("aesctrAlloc", "crypto/crypto_aesctr.c", "crypto_aesctr_alloc"),
     ("aesctrBuf", "crypto/crypto_aesctr.c", "crypto_aesctr_buf"),
     ("awsReadkeys", "aws/aws_readkeys.c", "aws_readkeys"),
 ]
+
+
+def function_configs(src, cname, optional=False):
+    """-> ([(configuration name, statement list)] distinct lists, the harness configuration first; messages)"""
+    text = clean_source(src)
+    rel, assignments, msgs = configurations(text, cname)
+    seen, out = [], []
+    for idx, asg in enumerate(assignments):
+        pp, defined = preprocess(text, asg)
+        try:
+            sts, _ = translate_function(pp, cname)
+        except KeyError:
+            if idx == 0 and not optional:
+                msgs.append("%s is not defined in the configuration the harness is built with" % cname)
+            continue          # the function does not exist in this configuration
+        if sts in seen:
+            continue
+        seen.append(sts)
+        out.append((" ".join(sorted(defined & rel)), sts))
+    if not out:
+        raise KeyError("function %s not found in any configuration" % cname)
+    return out, msgs
 
 
 def struct_fields(src, name):
@@ -316,17 +738,23 @@ def wipe_tables(repo):
     msgs = []
     txt = "-- GENERATED from /repo by tools/extractors/c20.py; do not edit\n"
     txt += "import Percival.Model.WipeLang\nnamespace Percival.Gen.Wipe\nopen Percival.Model.WipeLang\n\n"
-    for lname, f, cname in FUNCS:
+    for ent in FUNCS:
+        lname, f, cname = ent[:3]
         try:
-            params, body = find_function(read(repo, f), cname, with_params=True)
-            types = declared_types(params, body)
-            sts = [(st[0], st[1], st[2], [normalise_sizeof(a, types) for a in st[3]], st[4]) if st[0] == "call" else st
-                   for st in statements(body)]
+            cfgs, m = function_configs(read(repo, f), cname, optional="optional" in ent[3:])
+            msgs += ["%s:%s" % (f, x) for x in m]
         except Exception as e:
             msgs.append("%s:%s: %r" % (f, cname, e))
-            sts = []
-        txt += "/-- `%s` in %s -/\ndef %s : List Stmt := [\n" % (cname, f, lname)
-        txt += ",\n".join("  " + lean_stmt(st) for st in sts)
+            cfgs = [("", [])]
+        txt += "/-- `%s` in %s, configuration [%s] -/\ndef %s : List Stmt := [\n" % (cname, f, cfgs[0][0], lname)
+        txt += ",\n".join("  " + lean_stmt(st) for st in cfgs[0][1])
+        txt += "]\n\n"
+        txt += "/-- `%s`: one statement list per preprocessor configuration (named by the macros defined in it) -/\n" % cname
+        txt += "def %sConfigs : List (String × List Stmt) := [\n  (%s, %s)" % (lname, lean_str(cfgs[0][0]), lname)
+        for nm, sts in cfgs[1:]:
+            txt += ",\n  (%s, [\n" % lean_str(nm)
+            txt += ",\n".join("    " + lean_stmt(st) for st in sts)
+            txt += "])"
         txt += "]\n\n"
     # struct layouts of the HMAC contexts (a context is wiped when each of its members is)
     for lname, f, sname in [("hmacSha1CtxFields", "alg/sha1.h", "HMAC_SHA1_CTX"),
